@@ -16,7 +16,10 @@
         answer (own column, reference column, by-group table; ids of the `_with_info` variants): the ids
         the backend attached to the object during the whole run up to the answer, and at some time
         (C14/Lists.v [list_ok]: must <= served <= may; equal when the backend's comments never change):
-        a freshly published data set must already carry its lists. *)
+        a freshly published data set must already carry its lists.
+      - [c_waits]: [elapsed; timeout; margin; threshold; served] per WaitTrigger request that really waited for a
+        check result arriving during the wait, while the update loop reloads the objects (C14/Lists.v [wait_ok]):
+        an answer delivered before the timeout satisfies its own WaitCondition. *)
 From LMD Require Export Base.Str C14.Model C14.Lists.
 Open Scope Z_scope.
 
@@ -30,7 +33,8 @@ Record case := mkCase {
   c_races : list str;
   c_deadlocks : nat;
   c_crash : bool;
-  c_lists : list (list Z * list Z * list Z) }.
+  c_lists : list (list Z * list Z * list Z);
+  c_waits : list (list Z) }.
 
 Definition uniform (l : list Z) : bool :=
   match l with [] => true | x :: r => forallb (Z.eqb x) r end.
@@ -45,7 +49,8 @@ Definition stats_ok (l : list Z) : bool :=
   end.
 
 (** verdict tags: 1 lock order, 2 torn row, 3 mixed generation/epoch, 4 Stats, 5 sums, 6 malformed,
-    7 race report, 8 deadlock report, 9 crash, 10 comment / downtime list that does not fit the backend *)
+    7 race report, 8 deadlock report, 9 crash, 10 comment / downtime list that does not fit the backend,
+    11 answer of a WaitTrigger request before its timeout that does not meet its WaitCondition *)
 Definition expected (c : case) : list nat :=
   (if forallb increasing (c_orders c) then [] else [1%nat]) ++
   (if forallb uniform (c_rows c) then [] else [2%nat]) ++
@@ -56,7 +61,8 @@ Definition expected (c : case) : list nat :=
   (match c_races c with [] => [] | _ => [7%nat] end) ++
   (if Nat.eqb (c_deadlocks c) 0 then [] else [8%nat]) ++
   (if c_crash c then [9%nat] else []) ++
-  (if forallb list_ok (c_lists c) then [] else [10%nat]).
+  (if forallb list_ok (c_lists c) then [] else [10%nat]) ++
+  (if forallb wait_ok (c_waits c) then [] else [11%nat]).
 
 Definition check (c : case) : bool := match expected c with [] => true | _ => false end.
 
